@@ -29,6 +29,10 @@ theorem aimdSuccNew_inB {cfg : Cfg} (h : cfg.min ≤ cfg.max) {r : Nat} (hr : In
     InB cfg (aimdSuccNew cfg r) := by
   unfold aimdSuccNew; unfold InB at *; omega
 
+theorem aimdSuccsNew_inB {cfg : Cfg} (h : cfg.min ≤ cfg.max) (n : Nat) {r : Nat} (hr : InB cfg r) :
+    InB cfg (aimdSuccsNew cfg n r) := by
+  unfold aimdSuccsNew; unfold InB at *; omega
+
 theorem mul_div_le_self (r p q : Nat) (h : p ≤ q) : r * p / q ≤ r := by
   apply Nat.div_le_of_le_mul
   rw [Nat.mul_comm q r]
@@ -98,7 +102,17 @@ theorem setPh_ok {cfg : Cfg} {th : Thread} (ht : ThreadOk cfg th) {ph : Phase} (
 theorem afterMinLoad_ok (cfg : Cfg) (rtt cm : Nat) : PhaseOk cfg (afterMinLoad rtt cm) := by
   unfold afterMinLoad; split <;> exact phaseOk_none rfl
 
-theorem beginOp_ok {cfg : Cfg} (c : Cells) (th : Thread) (op : FOp)
+/-- a finished operation that returns values in bounds -/
+theorem finish_out_ok {cfg : Cfg} {th : Thread} (ht : ThreadOk cfg th) {l : List Nat} (hl : ∀ v ∈ l, InB cfg v) :
+    ThreadOk cfg { finish th with out := th.out ++ l } := by
+  refine ⟨phaseOk_none rfl, ?_⟩
+  intro v hv
+  simp at hv
+  rcases hv with hv | hv
+  · exact ht.out v hv
+  · exact hl v hv
+
+theorem beginOp_ok {cfg : Cfg} (w : Wf cfg) (c : Cells) (th : Thread) (op : FOp)
     (hc : CellsOk cfg c) (ht : ThreadOk cfg th) :
     CellsOk cfg (beginOp cfg c th op).1 ∧ ThreadOk cfg (beginOp cfg c th op).2 := by
   unfold beginOp
@@ -116,6 +130,20 @@ theorem beginOp_ok {cfg : Cfg} (c : Cells) (th : Thread) (op : FOp)
     · exact phaseOk_some rfl hc.lim
   · exact ⟨hc, setPh_ok ht (phaseOk_some rfl hc.lim)⟩
   · exact ⟨hc, setPh_ok ht (afterMinLoad_ok cfg _ _)⟩
+  · exact ⟨hc, finish_ok ht⟩
+  · refine ⟨hc, finish_out_ok ht ?_⟩
+    intro v hv; simp at hv; subst hv; exact ⟨Nat.le_refl _, w.le⟩
+  · refine ⟨hc, finish_out_ok ht ?_⟩
+    intro v hv; simp at hv; subst hv; exact ⟨w.le, Nat.le_refl _⟩
+  · split
+    · exact ⟨hc, setPh_ok ht (phaseOk_some rfl hc.lim)⟩
+    · exact ⟨hc, finish_ok ht⟩
+  · split
+    · exact ⟨storeLimit_ok hc (clampInit_inB w.le), finish_ok ht⟩
+    · exact ⟨hc, finish_ok ht⟩
+  · split
+    · exact ⟨hc, setPh_ok ht (phaseOk_some rfl hc.lim)⟩
+    · exact ⟨hc, finish_ok ht⟩
 
 theorem contOp_ok {cfg : Cfg} (w : Wf cfg) (c : Cells) (th : Thread)
     (hc : CellsOk cfg c) (ht : ThreadOk cfg th) :
@@ -133,6 +161,18 @@ theorem contOp_ok {cfg : Cfg} (w : Wf cfg) (c : Cells) (th : Thread)
   · next r heq =>
     rw [heq] at hph
     exact ⟨storeLimit_ok hc (vegasFailNew_inB w.le (hph r rfl)), finish_ok ht⟩
+  · next n r heq =>
+    rw [heq] at hph
+    exact ⟨storeLimit_ok hc (aimdSuccsNew_inB w.le n (hph r rfl)), finish_ok ht⟩
+  · next n r heq =>
+    rw [heq] at hph
+    split
+    · refine ⟨hc, finish_out_ok ht ?_⟩
+      intro v hv; simp at hv
+      rcases hv with hv | hv
+      · rw [hv]; exact hph r rfl
+      · rw [hv]; exact aimdSuccNew_inB w.le (hph r rfl)
+    · exact ⟨hc, setPh_ok ht (phaseOk_some rfl (hph r rfl))⟩
   · split
     · exact ⟨⟨hc.lim, hc.stores, hc.last⟩, setPh_ok ht (phaseOk_none rfl)⟩
     · exact ⟨hc, setPh_ok ht (afterMinLoad_ok cfg _ _)⟩
@@ -159,7 +199,7 @@ theorem tstep_ok {cfg : Cfg} (w : Wf cfg) (c : Cells) (th : Thread)
   split
   · split
     · exact ⟨hc, ht⟩
-    · exact beginOp_ok c th _ hc ht
+    · exact beginOp_ok w c th _ hc ht
   · exact contOp_ok w c th hc ht
 
 /-! ## schedules -/
